@@ -374,6 +374,10 @@ Proof.
   - rewrite Forall_forall in *. intros g Hg. apply HF. now apply in_rev.
 Qed.
 
+Lemma block_rev_invol_perm : forall n a, 0 < n -> length a mod n = 0 ->
+  block_rev n (block_rev n a) = a /\ Permutation (block_rev n a) a.
+Proof. intros n a Hn Hm. split; [now apply block_rev_invol|now apply block_rev_perm]. Qed.
+
 (* divisibility of every component by its group size *)
 Definition Divs (k : nat) (sizes : list nat) (t : list (list nat)) : Prop :=
   forall i, i < length t ->
